@@ -293,9 +293,9 @@ func (d *decompressor) readMember() error {
 	}
 	skipped := int(d.cr.offset() - mark)
 	need := d.blockSize - skipped
-	if need == 0 {
-		return io.EOF
-	} else if need < 0 {
+	if need <= 0 {
+		// A member that is no longer than its own header has no room
+		// for the deflate data and the gzip trailer.
 		return ErrCorrupt
 	}
 
